@@ -1,6 +1,7 @@
 import AlgopyVerif.Proofs.Tape
 import AlgopyVerif.Proofs.Pullback
 import AlgopyVerif.Proofs.MatPullback
+import AlgopyVerif.Proofs.ArrayAdjoint
 /-!
 # C03 — reverse mode agrees with forward mode at every Taylor order
 
@@ -32,6 +33,14 @@ correspondence run for 25 unary + 4 binary kernels) are these ring expressions i
 `Xbar = -Bbar Zᵀ`), `trace`, `transpose`, `det` (Jacobi's formula in algebraic form; `Xbar = ybar det(X) X⁻ᵀ`).
 The C03 run compares `pb_dot, pb_inv, pb_solve, pb_trace, pb_det` of the code with exactly these formulas
 evaluated in Taylor arithmetic.
+
+**Array level** (`gather_scatter_adjoint`, `reduction_adjoint`, `item_assignment_adjoint`,
+`Proofs/ArrayAdjoint.lean`): every cell-moving operation (broadcasting, basic indexing / views, reshape,
+transpose, tile, diag) is a gather `y_i = x_{m(i)}` along an index map `m`, not necessarily injective; its
+adjoint is the scatter-add `xbar_j = Σ_{m(i)=j} ybar_i` (for broadcasting: the sum over the broadcast axes —
+what the repaired `pb___setitem__` and the binary pullbacks do); reductions are the transposed pair; item
+assignment along an injective map gives `ybar` masked outside the selection to the old contents and `ybar`
+gathered through the selection to the assigned value.
 
 Not proved (partial): the lowering of the array-level tracer to tapes is argued, not mechanised;
 the local adjoint conditions of the factorization pullbacks (`logdet` through `lu2`, `qr, cholesky, lu,
@@ -74,6 +83,27 @@ theorem pullback_log_is_ring_expr (ybar x xbar : List K) (hx : co x 0 ≠ 0) (hl
 theorem pullback_div_is_ring_expr (zbar y z xbar ybar : List K) (hy : co y 0 ≠ 0) (hl : zbar.length = y.length) :
     pbDiv zbar y z xbar ybar = (addS xbar (mulS zbar (recipS y)), subS ybar (mulS (mulS zbar (recipS y)) z)) :=
   pbDiv_spec zbar y z xbar ybar hy hl
+end
+
+/-! ## array-level structural operations -/
+section
+open AV.ArrayAdj
+variable {ι κ : Type} [Fintype ι] [Fintype κ] [DecidableEq κ]
+
+theorem gather_scatter_adjoint (m : ι → κ) (ybar : ι → A) (dx : κ → A) :
+    ∑ i, ybar i * dx (m i) = ∑ j, scatterAdd m ybar j * dx j := gather_adjoint m ybar dx
+
+theorem reduction_adjoint (m : ι → κ) (ybar : κ → A) (dx : ι → A) :
+    ∑ j, ybar j * scatterAdd m dx j = ∑ i, ybar (m i) * dx i := reduce_adjoint m ybar dx
+
+theorem item_assignment_adjoint [DecidableEq ι] (m : ι → κ) (hm : Function.Injective m) (ybar dx : κ → A) (dv : ι → A) :
+    ∑ j, ybar j * assign m dx dv j
+      = (∑ j, (if ∃ i, m i = j then 0 else ybar j) * dx j) + ∑ i, ybar (m i) * dv i :=
+  assign_adjoint m hm ybar dx dv
+
+/-- non-vacuity: broadcasting a length-1 axis to length 3 sums the three adjoints -/
+example : scatterAdd (A := ℤ) (fun _ : Fin 3 => (0 : Fin 1)) (fun i => (i : ℤ) + 1) 0 = 6 := by
+  decide
 end
 
 /-! ## matrix pullbacks -/
